@@ -2,6 +2,8 @@
   Driver.Tag — line protocol for the `tag` sub-harness (C19).
     in :  `P <hex>`   NewProperty(tag text)            → `<tagval> <args> <required>`
           `S <hex>`   prop shorthand rewrite + parse     → `<rewritten> <tagval> <args> <required>`
+          `U <r><m> <hex>`  user-defined tag scanner (Required field r) over a field tagged with the text
+                                                         → `<tagval> <args> <required>` of the scanned property
     args are printed sorted by name:  name=item,item;name=…   (all hex, `-` = empty, `.` = no args)
 -/
 import Ioc.Tag
@@ -30,6 +32,16 @@ def handle (line : String) : String :=
       match propShorthand? s with
       | none => "panic"
       | some t => toHex t ++ " " ++ showParsed (parse? t)
+    | none => "bad-line"
+  | ["U", cfg, h] =>
+    -- cfg = <r><m>: r = the scanner's Required field (1 = true; 0 = left unset, 2 = set to false: the same zero value),
+    -- m = how the tag reaches NewProperty (0 tag lookup, 1 ExtractHandler, 2 ExtractHandler with the scanner's tag name);
+    -- all three ways build the same property
+    match fromHex h with
+    | some s =>
+      match cfg.toList with
+      | [r, _] => showParsed (scan? (r == '1') s)
+      | _ => "bad-line"
     | none => "bad-line"
   | _ => "bad-line"
 
